@@ -213,7 +213,9 @@ Holds3(C, st) ==
                         IF c = "U" THEN "U" ELSE IF c = "F" THEN "T" ELSE HoldsAll(C, st.body)
     [] st.k = "uniq" -> PairsDistinct(C, UniqArgs(C, st.args, 1), 1, 2)
     [] st.k = "foreach" ->
-         LET lp == AbsP(C.own, st.l)  n == C.sz[lp] IN
+         \* the list is named from the owner, or (nested foreach) below the element bound by an enclosing foreach
+         LET lp == IF st.of = "" THEN AbsP(C.own, st.l) ELSE C.bind[st.of].p \o "." \o st.l
+             n == C.sz[lp] IN
          All3({HoldsAll([C EXCEPT !.bind = (st.v :> [p |-> ElemPath(lp, j), n |-> j, l |-> lp]) @@ C.bind],
                         st.body) : j \in 0..(n - 1)})
     [] st.k = "soft"  -> "T"     \* no hard meaning (see Soft.tla)
